@@ -1338,6 +1338,94 @@ theorem mof_complete_core {s : Store} {tagged : List (Id × Id)} {pick : Nat →
     · exact .inl h2
   · exact .inr h1
 
+/-! ## the executable closure computes `Reach` -/
+
+theorem closureAux_sound (s : Store) (roots : List Id) :
+    ∀ (fuel : Nat) (todo seen l : List Id), closureAux s fuel todo seen = some l →
+      (∀ x ∈ todo, Reach s roots x) → (∀ x ∈ seen, Reach s roots x) → ∀ x ∈ l, Reach s roots x
+  | fuel, [], seen, l, h, _, hs => by
+    cases fuel <;> (simp [closureAux] at h; subst h; exact hs)
+  | 0, _ :: _, seen, l, h, _, _ => by simp [closureAux] at h
+  | fuel + 1, x :: todo, seen, l, h, ht, hs => by
+    have hx : Reach s roots x := ht x (by simp)
+    have ht' : ∀ y ∈ todo, Reach s roots y := fun y hy => ht y (by simp [hy])
+    unfold closureAux at h
+    split at h
+    · exact closureAux_sound s roots fuel todo seen l h ht' hs
+    · have hs' : ∀ y ∈ x :: seen, Reach s roots y := by
+        intro y hy; simp at hy; rcases hy with rfl | hy; exact hx; exact hs y hy
+      split at h
+      · exact closureAux_sound s roots fuel todo (x :: seen) l h ht' hs'
+      · rename_i o ho
+        refine closureAux_sound s roots fuel (children o ++ todo) (x :: seen) l h ?_ hs'
+        intro y hy
+        simp only [List.mem_append] at hy
+        rcases hy with hy | hy
+        · exact .step hx ho hy
+        · exact ht' y hy
+
+theorem closureAux_complete (s : Store) :
+    ∀ (fuel : Nat) (todo seen l : List Id), closureAux s fuel todo seen = some l →
+      (∀ x ∈ seen, ∀ o, s x = some o → ∀ c ∈ children o, c ∈ seen ∨ c ∈ todo) →
+      (∀ x ∈ seen, x ∈ l) ∧ (∀ x ∈ todo, x ∈ l) ∧
+      (∀ x ∈ l, ∀ o, s x = some o → ∀ c ∈ children o, c ∈ l)
+  | fuel, [], seen, l, h, inv => by
+    cases fuel <;>
+    · simp [closureAux] at h; subst h
+      refine ⟨fun x hx => hx, by simp, ?_⟩
+      intro x hx o ho c hc
+      rcases inv x hx o ho c hc with h1 | h1
+      · exact h1
+      · simp at h1
+  | 0, _ :: _, seen, l, h, _ => by simp [closureAux] at h
+  | fuel + 1, x :: todo, seen, l, h, inv => by
+    unfold closureAux at h
+    split at h
+    · rename_i hxs
+      have ih := closureAux_complete s fuel todo seen l h (by
+        intro y hy o ho c hc
+        rcases inv y hy o ho c hc with h1 | h1
+        · exact .inl h1
+        · simp at h1; rcases h1 with rfl | h1
+          · exact .inl hxs
+          · exact .inr h1)
+      refine ⟨ih.1, ?_, ih.2.2⟩
+      intro y hy; simp at hy; rcases hy with rfl | hy
+      · exact ih.1 y hxs
+      · exact ih.2.1 y hy
+    · split at h
+      · rename_i hnone
+        have ih := closureAux_complete s fuel todo (x :: seen) l h (by
+          intro y hy o ho c hc
+          simp at hy
+          rcases hy with rfl | hy
+          · simp [hnone] at ho
+          · rcases inv y hy o ho c hc with h1 | h1
+            · exact .inl (by simp [h1])
+            · simp at h1; rcases h1 with rfl | h1
+              · exact .inl (by simp)
+              · exact .inr h1)
+        refine ⟨fun y hy => ih.1 y (by simp [hy]), ?_, ih.2.2⟩
+        intro y hy; simp at hy; rcases hy with rfl | hy
+        · exact ih.1 y (by simp)
+        · exact ih.2.1 y hy
+      · rename_i o ho
+        have ih := closureAux_complete s fuel (children o ++ todo) (x :: seen) l h (by
+          intro y hy o' ho' c hc
+          simp at hy
+          rcases hy with rfl | hy
+          · rw [ho] at ho'; cases ho'
+            exact .inr (by simp [hc])
+          · rcases inv y hy o' ho' c hc with h1 | h1
+            · exact .inl (by simp [h1])
+            · simp at h1; rcases h1 with rfl | h1
+              · exact .inl (by simp)
+              · exact .inr (by simp [h1]))
+        refine ⟨fun y hy => ih.1 y (by simp [hy]), ?_, ih.2.2⟩
+        intro y hy; simp at hy; rcases hy with rfl | hy
+        · exact ih.1 y (by simp)
+        · exact ih.2.1 y (by simp [hy])
+
 /-! ## association-list stores, thin packs -/
 
 theorem lookup_some_mem {l : List (Id × Obj)} {x : Id} {o : Obj} (h : l.lookup x = some o) :
